@@ -316,8 +316,8 @@ func ruleSkipOrder(p *Prog, r *RuleResult) {
 			for _, b := range scanF.Blocks {
 				if ret, ok := b.Instrs[len(b.Instrs)-1].(*ssa.Return); ok && b != scanF.Recover && ex.Index < len(ret.Results) {
 					n++
-					if !isSkipCountIn(scanF, ret.Results[ex.Index]) {
-						if c, isC := ret.Results[ex.Index].(*ssa.Const); !isC || c.Value == nil {
+					if !isSkipCountIn(scanF, rvals(ret)[ex.Index]) {
+						if c, isC := rvals(ret)[ex.Index].(*ssa.Const); !isC || c.Value == nil {
 							okAll = false
 						}
 					}
